@@ -3,6 +3,7 @@ package main
 import (
 	"encoding/json"
 	"fmt"
+	"strings"
 	"time"
 
 	"github.com/gobuffalo/plush/v5"
@@ -198,7 +199,22 @@ func init() {
 		Quick:    []semRun{{Cfg: "GenRoutes.quick.cfg", Workers: 8}},
 		Thorough: []semRun{{Cfg: "GenRoutes.thorough.cfg", Workers: 12}},
 		Rule: "GenRoutes.tla: 5 payloads (specials, entity text, multi-byte, seeded PLAIN/MB classes) x 15 places the payload starts (string literal, back-quoted literal, context string, template.HTML, HTMLer, raw() of literal / variable, struct field (string / HTML), map element, []string / []interface{} element, helper result, whole []string / []interface{}) x sequences of <= MaxSteps of 10 plumbing steps (let, \"\" + x, x + \"\", array wrap + index, array wrap emitted whole, hash wrap + index, identity user function, emitting user function, Go identity helper, parentheses) x 14 sinks (top level, loop variable, if / else body, function body, function call in a loop, block helper with caller's / own context, contentFor+contentOf, contentOf data, contentOf default block, partial data, nested partial, layout yield). TLC checks TaintTheorem on the reference semantics (data never contributes a raw < > ' \"; trusted HTML appears verbatim exactly once). Real-code oracle: where the payload was data each of < > & ' \" must appear as an HTML entity (any spelling), where it was trusted HTML the bytes must appear verbatim exactly once, all surrounding literal text byte for byte. distinct_nontrivial = distinct (start, steps, sink) routes with a specified outcome.",
-		Assume: []string{"a string concatenated with trusted HTML, a fmt.Stringer, and a block helper that returns `string` are outside the property's quantifier (not generated or unspecified)"},
+		Assume: []string{"the printed form of string + trusted HTML is not specified (only that the string's characters stay escaped); a fmt.Stringer and a block helper that returns `string` are outside the property's quantifier"},
+		// independent of the model (also for routes whose exact output is unspecified): a payload that
+		// started as a Go string must never reach the output with its special characters raw
+		PerRun: func(c *Ctx, sc *semCase, src string, v semVerdict) {
+			if sc.Trusted == nil || *sc.Trusted || v.Obs.IsErr || v.Obs.Panic != "" || v.Obs.Hang {
+				return
+			}
+			pl := decodeChars(sc.Payload)
+			if !strings.ContainsAny(pl, "<>'\"") {
+				return
+			}
+			if strings.Contains(v.Obs.Out, pl) {
+				c.Fail("data-emitted-raw:"+sc.Shape, fmt.Sprintf("%s: the string payload %q reaches the output unescaped: %q", src, pl, trunc(v.Obs.Out, 100)),
+					map[string]interface{}{"gen": sc.Gen, "src": sc.Src, "data": sc.Data, "parts": sc.PartsR, "expect": sc.Expect, "shape": sc.Shape, "trusted": false, "payload": sc.Payload, "source_text": src, "observed": v.Obs})
+			}
+		},
 	})
 	registerSem(semSpec{
 		ID: "C05", Module: "GenFaults", CheckLog: true,
